@@ -124,12 +124,13 @@ def make_function(key, params, is_async, view=False):
 _VALIDATORS = {}
 
 
-def get_validator(kind, coerce, excluded):
-    k = (kind, coerce, tuple(excluded))
+def get_validator(kind, coerce, excluded, wide=False):
+    k = (kind, coerce, tuple(excluded), wide)
     if k not in _VALIDATORS:
         pred = (lambda name, ann, default: name in excluded) if excluded else None
         if kind == 'jsonschema':
-            _VALIDATORS[k] = js_validators.JsonSchemaValidator(exclude_param=pred)
+            # `wide`: the validator object itself carries a permissive default schema; a method's own schema wins over it
+            _VALIDATORS[k] = js_validators.JsonSchemaValidator(exclude_param=pred, **({'schema': {'type': 'object'}} if wide else {}))
         elif kind == 'pydantic':
             _VALIDATORS[k] = pd_validators.PydanticValidator(coerce=coerce, exclude_param=pred)
         else:
@@ -157,7 +158,7 @@ def build(c, is_async):
             pjrpc.server.ViewMixin.__init__(self)
             self.context = context
         V = type('V', (pjrpc.server.ViewMixin,), {'__init__': _init, 'vm': g})
-    val = get_validator(v['kind'], v.get('coerce', True), v.get('excluded') or [])
+    val = get_validator(v['kind'], v.get('coerce', True), v.get('excluded') or [], bool(v.get('wide')))
     if v['kind'] == 'jsonschema':
         # validator arguments given for *this* method only (besides its schema)
         extra = {'format_checker': jsonschema.FormatChecker()} if v.get('format_checker') else {}
@@ -333,6 +334,14 @@ def generate(tier, rng):
                                     twin={'ctx': None, 'params': {'ctx': 1, 'a': v1}})
                     yield make_case(paramsc, {'kind': 'pydantic', 'coerce': coerce}, None, rp, tag='validators-twin',
                                     twin={'ctx': 'ctx', 'params': {'a': v1}})
+    # methods without client-settable parameters still refuse superfluous arguments (and the context name)
+    for kind in ('pydantic', 'jsonschema', 'base'):
+        v = {'kind': kind}
+        if kind == 'jsonschema':
+            v['schema'] = {'type': 'object'}
+        for params, ctxname in (([], None), ([{'n': 'ctx', 'k': 'pk', 'd': False}], 'ctx')):
+            for rp in ([], {}, [1], {'x': 1}, {'ctx': 'client-supplied'}, ['client-supplied']):
+                yield make_case(params, v, ctxname, rp, tag='validators-noparams')
     # a parameter that defaults to None is not thereby Optional: an explicit null does not conform to `int`
     for coerce in (True, False):
         for ann in ('int', 'str', 'float', 'listint', 'optint'):
@@ -350,6 +359,14 @@ def generate(tier, rng):
         for ctxname in ('request', 'times', 'other', None):
             for rp in (['ping'], ['ping', 2], {'request': 'ping', 'times': 2}, {'times': 2}, {}, {'request': 1}, ['ping', 'x'], {'request': 'ping', 'other': 1}):
                 yield make_case(params, v, ctxname, rp, tag='validators-view', view=True)
+    # an explicit null accepted for an Optional parameter reaches the method as None (not the default, not dropped)
+    for coerce in (True, False):
+        params = [{'n': 'v', 'k': 'pk', 'd': False, 'ann': 'int'}, {'n': 'f', 'k': 'pk', 'd': True, 'ann': 'optint'}]
+        for rp in ([3, None], {'v': 3, 'f': None}, [3], {'v': 3}, [3, 4], [None]):
+            yield make_case(params, {'kind': 'pydantic', 'coerce': coerce}, None, rp, tag='validators-optional-null')
+        params = [{'n': 'n', 'k': 'pk', 'd': False, 'ann': 'optint'}]
+        for rp in ([None], {'n': None}, [1], {}):
+            yield make_case(params, {'kind': 'pydantic', 'coerce': coerce}, None, rp, tag='validators-optional-null')
     # --- jsonschema: per-parameter fragments, required, additionalProperties ----------------------
     for name, (frag, vals) in SCHEMAS.items():
         for val in vals:
@@ -362,6 +379,9 @@ def generate(tier, rng):
                     v = {'kind': 'jsonschema', 'schema': schema}
                     for rp in ([val], {'a': val}, {}, [], {'b': 1}, {'a': val, 'b': 'extra'}, {'a': val, 'zz': 1}):
                         yield make_case(params, v, None, rp)
+                    if required and not addl:
+                        for rp in ([val], {'a': val}, {}):
+                            yield make_case(params, dict(v, wide=True), None, rp, tag='validators-wide')
     schema = {'type': 'object', 'properties': {'a': {'type': 'integer'}, 'b': {'type': 'string'}}, 'required': ['a']}
     for excluded in ([], ['dep']):
         params = [{'n': 'a', 'k': 'pk', 'd': False}, {'n': 'b', 'k': 'ko', 'd': True}, {'n': 'dep', 'k': 'ko', 'd': True}]
